@@ -214,13 +214,22 @@ def handleGenPowWith (ch : String) (kv : KV) (al : Array Float) (dim2 : Nat) (ψ
   | "genpow.update_scaling" =>
     match kv.floats "z", kv.float "mu", kv.floats "x" with
     | some z, some mu, some x =>
-      fmtME (fun (r : GenPow.Data Float × Array Float) =>
-          "ok=1 Hs=" ++ fmtFloats (GenPow.getHs r.1 mu dim2) ++ " mu=" ++ fmtFloat mu ++ " grad=" ++ fmtFloats r.1.grad
-            ++ " " ++ fmtData r.1 ++ " z=" ++ fmtFloats z ++ " y=" ++ fmtFloats r.2)
+      fmtME (fun (r : Bool × GenPow.State Float × Array Float) =>
+          let st := r.2.1
+          "ok=" ++ fmtBool r.1 ++ " Hs=" ++ fmtFloats (GenPow.getHs st.D st.mu dim2) ++ " mu=" ++ fmtFloat st.mu
+            ++ " grad=" ++ fmtFloats st.D.grad ++ " " ++ fmtData st.D ++ " z=" ++ fmtFloats st.z
+            ++ " y=" ++ fmtFloats r.2.2)
         (do
-          let D ← GenPow.updateDualGradH al z
-          let y ← GenPow.mulHs D mu al.size x
-          pure (D, y))
+          let st0 : GenPow.State Float := GenPow.State.init al.size dim2
+          -- optional earlier update on the same cone object
+          let st1 ← match kv.floats "zprev" with
+            | some zp => do
+              let r ← GenPow.updateScaling al st0 zp 1
+              pure r.2
+            | none => pure st0
+          let (ok, st) ← GenPow.updateScaling al st1 z mu
+          let y ← GenPow.mulHs st.D st.mu al.size x
+          pure (ok, st, y))
     | _, _, _ => "bad-request"
   | "genpow.unit_initialization" =>
     let u := GenPow.unitInitialization al dim2
